@@ -102,7 +102,9 @@ def tweak_strategy():
         st.tuples(st.just("add_sw"), i, st.integers(0, len(ADD_SW) - 1)),
         st.tuples(st.just("num_ports"), i, st.sampled_from([4, 8, 12, 24])),
         st.tuples(st.just("drop_durations"), st.integers(0, 15)),
-        st.tuples(st.just("node_set"), st.integers(1, 4), st.booleans(), st.sampled_from([None, 10, 150])),
+        # 1-23 PCs: one edge switch; 24-46: two edge switches + core switch; 47+: three
+        st.tuples(st.just("node_set"), st.sampled_from([1, 2, 3, 4, 8, 23, 24, 30, 50]), st.booleans(),
+                  st.sampled_from([None, 10, 40, 150])),
     ).map(list)
 
 
@@ -356,7 +358,7 @@ ALPHABET: List[List] = (
     + [["add_sw", h, a] for h in (0, 1) for a in range(len(ADD_SW))]
     + [["num_ports", 0, 12], ["num_ports", 1, 24]]
     + [["drop_durations", n] for n in range(9)]
-    + [["node_set", 2, True, None], ["node_set", 3, True, 150]]
+    + [["node_set", n, r, bw] for n in (2, 8, 23, 24, 30, 50) for r in (True, False) for bw in (None, 40, 150)]
 )
 
 # combinations whose members only matter together
